@@ -113,6 +113,10 @@ impl WakerList {
     ///
     /// Safety: index must be within capacity
     pub(crate) unsafe fn push(&self, index: usize) {
+        #[cfg(futures_buffered_verif)]
+        crate::verif::emit(crate::verif::Event::HandleUse {
+            base: self.ptr.as_ptr() as usize,
+        });
         let queue = unsafe { &*ptr::addr_of!((*self.ptr.as_ptr()).queue) };
         let slot = unsafe { self.slice_start().add(index) };
 
@@ -126,6 +130,10 @@ impl WakerList {
 
     /// Register the waker
     pub(crate) fn register(&mut self, waker: &Waker) {
+        #[cfg(futures_buffered_verif)]
+        crate::verif::emit(crate::verif::Event::HandleUse {
+            base: self.ptr.as_ptr() as usize,
+        });
         // Safety:
         // Diatomic waker requires we do not concurrently run
         // "register", "unregister", and "wait_until".
@@ -153,6 +161,10 @@ impl WakerList {
     /// Note that this is unsafe as it required mutual exclusion (only one
     /// thread can call this) to be guaranteed elsewhere.
     pub(crate) unsafe fn pop(&self) -> ReadySlot<(usize, ManuallyDrop<Waker>)> {
+        #[cfg(futures_buffered_verif)]
+        crate::verif::emit(crate::verif::Event::HandleUse {
+            base: self.ptr.as_ptr() as usize,
+        });
         let queue = unsafe { &*ptr::addr_of!((*self.ptr.as_ptr()).queue) };
         match unsafe { queue.try_dequeue_unchecked() } {
             Ok(slot) => {
@@ -190,6 +202,12 @@ mod slot {
         let index = unsafe { (*ptr).index };
         let slice_start = unsafe { ptr.sub(index) };
 
+        #[cfg(futures_buffered_verif)]
+        crate::verif::emit(crate::verif::Event::WakerResolved {
+            item: ptr as usize,
+            header: (slice_start as usize).wrapping_sub(slice_offset()),
+        });
+
         unsafe { slice_start.cast::<u8>().sub(slice_offset()) }.cast::<WakerHeader>()
     }
 
@@ -208,12 +226,22 @@ mod slot {
 
         // Increment the reference count of the arc to clone it.
         unsafe fn clone_waker(waker: *const ()) -> RawWaker {
+            #[cfg(futures_buffered_verif)]
+            crate::verif::emit(crate::verif::Event::WakerEnter {
+                op: crate::verif::WakerOp::Clone,
+                item: waker as usize,
+            });
             unsafe { meta_ref(waker.cast()).inc_strong() };
             RawWaker::new(waker, VTABLE)
         }
 
         // We don't need ownership. Just wake_by_ref and drop the waker
         unsafe fn wake(waker: *const ()) {
+            #[cfg(futures_buffered_verif)]
+            crate::verif::emit(crate::verif::Event::WakerEnter {
+                op: crate::verif::WakerOp::Wake,
+                item: waker as usize,
+            });
             unsafe {
                 wake_by_ref(waker);
                 drop_waker(waker);
@@ -223,6 +251,11 @@ mod slot {
         // Find the `WakerHeader` and push the current index value into it,
         // then call the stored waker to trigger a poll
         unsafe fn wake_by_ref(waker: *const ()) {
+            #[cfg(futures_buffered_verif)]
+            crate::verif::emit(crate::verif::Event::WakerEnter {
+                op: crate::verif::WakerOp::WakeByRef,
+                item: waker as usize,
+            });
             let slot = waker.cast::<WakerItem>();
 
             let node = unsafe { &*slot };
@@ -240,6 +273,11 @@ mod slot {
 
         // Decrement the reference count of the Arc on drop
         unsafe fn drop_waker(waker: *const ()) {
+            #[cfg(futures_buffered_verif)]
+            crate::verif::emit(crate::verif::Event::WakerEnter {
+                op: crate::verif::WakerOp::Drop,
+                item: waker as usize,
+            });
             let meta = unsafe { meta_ref(waker.cast()) };
             if meta.dec_strong() {
                 unsafe {
@@ -362,6 +400,13 @@ fn slice_offset() -> usize {
 unsafe fn drop_inner(p: *mut WakerHeader, capacity: usize) {
     let layout = WakerList::layout(capacity);
 
+    #[cfg(futures_buffered_verif)]
+    crate::verif::emit(crate::verif::Event::BlockRelease {
+        base: p as usize,
+        size: layout.size(),
+        align: layout.align(),
+    });
+
     // SAFETY: the pointer points to an aligned and init instance of `WakerHeader`
     unsafe { drop_in_place(p) };
 
@@ -371,6 +416,10 @@ unsafe fn drop_inner(p: *mut WakerHeader, capacity: usize) {
 
 impl Drop for WakerList {
     fn drop(&mut self) {
+        #[cfg(futures_buffered_verif)]
+        crate::verif::emit(crate::verif::Event::HandleDrop {
+            base: self.ptr.as_ptr() as usize,
+        });
         let meta = unsafe { &*self.ptr.as_ptr() };
         if meta.dec_strong() {
             unsafe { drop_inner(self.ptr.as_ptr().cast(), meta.len) }
@@ -432,6 +481,14 @@ impl WakerList {
                 },
             );
         }
+
+        #[cfg(futures_buffered_verif)]
+        crate::verif::emit(crate::verif::Event::BlockAlloc {
+            base: ptr as usize,
+            size: arc_slice_layout.size(),
+            align: arc_slice_layout.align(),
+            cap,
+        });
 
         Self {
             ptr: unsafe { NonNull::new_unchecked(meta) },
